@@ -197,6 +197,11 @@ func collectRMWEvents(ci *concInfo) []rmwEvent {
 // sliceUp: backSlice of v, continued through the parameters of its function into the arguments at the
 // function's call sites (bounded).
 func sliceUp(ci *concInfo, v ssa.Value, f *ssa.Function) map[ssa.Value]bool {
+	return sliceUpN(ci, v, f, 3)
+}
+
+// sliceUpN: sliceUp with an explicit bound on the number of caller levels.
+func sliceUpN(ci *concInfo, v ssa.Value, f *ssa.Function, maxDepth int) map[ssa.Value]bool {
 	all := map[ssa.Value]bool{}
 	type item struct {
 		v     ssa.Value
@@ -218,7 +223,7 @@ func sliceUp(ci *concInfo, v ssa.Value, f *ssa.Function) map[ssa.Value]bool {
 		for x := range sl {
 			all[x] = true
 			p, ok := x.(*ssa.Parameter)
-			if !ok || it.depth >= 3 {
+			if !ok || it.depth >= maxDepth {
 				continue
 			}
 			// the parameter belongs to the function sliced in, or (through a captured variable) to a function enclosing it
